@@ -159,15 +159,32 @@ def judge_peak(d):
         if lds.ndim != 3 or any(s % 2 == 0 for s in lds.shape):
             out.append(viol("C07/landscape-shape", f"{tag}: landscape shape {lds.shape}"))
             return out
-    idx = np.array(np.unravel_index(int(np.argmax(lds)), lds.shape), dtype=np.float64)
-    peak = (idx - (np.array(lds.shape) - 1) / 2) / u
-    diff = np.abs(peak - np.asarray(res.shift, dtype=np.float64))
-    # FSC's own shift accuracy is 0.5 px (C04): its integer-sampled landscape is refined by two different
-    # spline schemes in align and in landscape(upsample)
-    tol = 0.5 / u + (0.5 if d["model"] == "FSC" else 0.2)
-    if not np.all(diff <= tol):
-        out.append(viol(f"C07/landscape-peak-vs-align:{d['model']}", f"{tag}: landscape maximum at {peak.tolist()} px but align reports "
-                        f"{np.round(res.shift, 3).tolist()} (planted {d['d']})", err=float(diff.max())))
+    # (a) integer level: align refines within +-1 px of the arg-max of the integer-sampled landscape inside the window
+    with warnings.catch_warnings():
+        warnings.simplefilter("ignore")
+        l1 = np.asarray(model.landscape(img, ms))
+    c1 = (np.array(l1.shape) - 1) // 2
+    top = float(l1.max())
+    near = np.argwhere(l1 >= top - 1e-4 * max(1.0, abs(top))) - c1  # all (near-)tied integer maxima
+    shift = np.asarray(res.shift, dtype=np.float64)
+    dist = np.abs(near - shift).max(axis=1).min()
+    if not dist <= 1.0 + 1e-3:
+        out.append(viol(f"C07/landscape-peak-vs-align:{d['model']}", f"{tag}: integer landscape maximum at {near[0].tolist()} px but align reports "
+                        f"{np.round(shift, 3).tolist()} (planted {d['d']})", err=float(dist)))
+    # (b) the upsampled landscape interpolates the integer one: its nodes at whole-pixel offsets carry the integer samples
+    # (holds for any interpolating scheme; the arg-max of the spline itself may overshoot between nodes, see DESIGN 9)
+    cu = (np.array(lds.shape) - 1) // 2
+    if lds.shape == exp_shape and u > 1:
+        kmax = [int(math.floor(m + 1e-9)) for m in ms]
+        sl_u = tuple(slice(cu[a] - kmax[a] * u, cu[a] + kmax[a] * u + 1, u) for a in range(3))
+        sl_1 = tuple(slice(c1[a] - kmax[a], c1[a] + kmax[a] + 1) for a in range(3))
+        a_u, a_1 = lds[sl_u], l1[sl_1]
+        # 1e-2: float32 window sums over a grey background change by ~2e-3 with the padded size (ms vs ms + 2)
+        tol = 1e-2 * max(1.0, float(np.abs(l1).max()))
+        if a_u.shape != a_1.shape or not np.abs(a_u - a_1).max() <= tol:
+            err = float(np.abs(a_u - a_1).max()) if a_u.shape == a_1.shape else float("inf")
+            out.append(viol(f"C07/landscape-upsample-nodes:{d['model']}", f"{tag}: upsampled landscape differs from the integer landscape at "
+                            f"whole-pixel offsets by {err:.4g} (tol {tol:.2g})", err=err))
     return out
 
 
